@@ -10,12 +10,12 @@ Universe == { [id |-> "a", version |-> "1", lang |-> "en"],
               [id |-> "a", version |-> "1.0-rc.1", lang |-> "en"],
               [id |-> "ab", version |-> "1.0+b", lang |-> "en"],
               [id |-> "ab", version |-> "1", lang |-> "en"],
-              [id |-> "b-c", version |-> "2", lang |-> "fr"] }
+              [id |-> "b-c", version |-> "2", lang |-> "fr-CA"] }
 Atoms == {"*", "a", "ab", "zz", "b-c", "a:1", "a:2", "a:*", "*:1", "*:2", "a*", "a*:*",
           "*:1.0*", "*b*", "b-*:*", "*-*", "a:1.0-rc.1", "ab:1.0+b", "a:", ":1", "*:*", "a:1*", "**"}
 Args == Atoms \cup {"a:1 ab", "a ab:*", "zz a", "a:* a", "*:2 zz", " a  ab ", "a b-c zz", "ab a*",
                     "a:2 a:1 a", "zz yy", " ", "* zz"}
-Langs == {"~", "en", "fr", "de"}
+Langs == {"~", "en", "fr-CA", "de"}
 Specs == {SpecOf(l) : l \in Universe}
 
 Init == db = <<>>
